@@ -23,6 +23,7 @@ CONSTANTS
   Acts,        \* enabled action families, subset of ActNames
   ObsKinds,    \* which read APIs are rendered into Obs
   Limits,      \* page limits used by Obs (0 = unlimited)
+  TrackPre,    \* TRUE: keep the previous state's Obs in variable pre and emit it (crash configurations)
   Writable,    \* dataset names that StoreBatch / ExecTxn may write to (jobs write to the others)
   Precreated,  \* TRUE iff the configuration starts from InitCreated (told to the harness in the header)
   Fan,         \* successors kept per state by NextSample (sampled deep exploration)
@@ -45,10 +46,11 @@ VARIABLES
   metaOf,      \* [DsName -> "none" | "live" | "deleted"] meta-entity state in core.Dataset
   rd,          \* [Readers -> [tok, acc]] reader tokens and accumulated output
   bk,          \* what the backup location holds: NoBk or the persistent state at the last backup run
+  pre,         \* Obs of the state before the last action (only if TrackPre; hidden by VIEW) -- crash checks
   hist         \* action history (hidden by VIEW in exhaustive configs)
 
 vars == <<clock, dsInc, nextInc, deletedInc, purgedInc, feed, nextPos,
-          everStored, metaOf, rd, bk, hist>>
+          everStored, metaOf, rd, bk, pre, hist>>
 view == <<clock, dsInc, nextInc, deletedInc, purgedInc, feed, nextPos,
           everStored, metaOf, rd, bk>>
 
@@ -196,7 +198,7 @@ Obs ==
 
 Batches == UNION { [1..k -> Ent \X CId] : k \in 1..MaxBatch }
 
-Log(r) == hist' = Append(hist, r)
+Log(r) == hist' = Append(hist, r) /\ pre' = (IF TrackPre THEN Obs ELSE <<>>)
 Steps == Len(hist)
 
 StoreBatch(n, b) ==
@@ -350,6 +352,7 @@ Init ==
   /\ metaOf = [n \in DsName |-> "none"]
   /\ rd = [r \in Readers |-> [tok |-> 0, acc |-> <<>>]]
   /\ bk = NoBk
+  /\ pre = <<>>
   /\ hist = <<>>
 
 \* all datasets of DsName pre-created (configs without management actions)
@@ -364,6 +367,7 @@ InitCreated ==
   /\ metaOf = [n \in DsName |-> "live"]
   /\ rd = [r \in Readers |-> [tok |-> 0, acc |-> <<>>]]
   /\ bk = NoBk
+  /\ pre = <<>>
   /\ hist = <<>>
 
 Next ==
@@ -522,7 +526,8 @@ OthersUnaffected == [][OthersUnaffectedStep]_vars
 CatalogueAgrees ==
   \A n \in DsName : (metaOf[n] = "live") <=> Exists(n)
 
-Emit == PrintT(<<"TRACE", ToJson([steps |-> hist, obs |-> Obs])>>)
+Emit == PrintT(<<"TRACE", ToJson(IF TrackPre THEN [steps |-> hist, obs |-> Obs, pre |-> pre]
+                                               ELSE [steps |-> hist, obs |-> Obs])>>)
 
 Header ==
   [ds |-> SetToSeq2(DsName), ent |-> SetToSeq2(Ent), pred |-> SetToSeq2(Pred),
